@@ -24,6 +24,18 @@ import (
 type refModel struct {
 	stored []bool
 	tags   map[string]int // reference -> node
+	ann    []map[string]string // per node: annotation map carried by the descriptor handed to Tag (nil: none)
+}
+
+// tagDesc is the descriptor the history hands to Tag for node i: with param annot=1 it may carry
+// an annotation map, and every Tag of that node passes the same map value (as a caller re-using
+// one descriptor variable does).
+func (m *refModel) tagDesc(nodes []vnode, i int) ocispec.Descriptor {
+	d := nodes[i].desc
+	if m.ann != nil && m.ann[i] != nil {
+		d.Annotations = m.ann[i]
+	}
+	return d
 }
 
 var ociRefs = []string{"t1", "t2"}
@@ -42,6 +54,13 @@ const (
 // applyHistory runs k symbolic operations on the store and on the reference model.
 // It returns false when an operation returned an unexpected error class.
 func applyHistory(ctx context.Context, s *Store, nodes []vnode, m *refModel, k int, allowGC, allowDelete bool) {
+	if verifrt.Param("annot", 0) != 0 && verifrt.Bool() {
+		m.ann = make([]map[string]string, len(nodes))
+		for i := range nodes {
+			m.ann[i] = map[string]string{"com.example.note": fmt.Sprintf("n%d", i)}
+		}
+		verifrt.Event("annotated tag descriptors")
+	}
 	for step := 0; step < k; step++ {
 		var kinds []int
 		kinds = append(kinds, opPush, opTag, opUntag)
@@ -83,7 +102,7 @@ func applyHistory(ctx context.Context, s *Store, nodes []vnode, m *refModel, k i
 			i := verifrt.Choice(len(nodes))
 			ref := ociRefs[verifrt.Choice(len(ociRefs))]
 			verifrt.Event(fmt.Sprintf("Tag(node%d,%s)", i, ref))
-			err := s.Tag(ctx, nodes[i].desc, ref)
+			err := s.Tag(ctx, m.tagDesc(nodes, i), ref)
 			present := false
 			for j := range nodes {
 				if m.stored[j] && nodes[j].desc.Digest == nodes[i].desc.Digest {
@@ -141,6 +160,7 @@ func storedIdx(nodes []vnode, m *refModel, i int) bool {
 type observation struct {
 	tags    []string
 	tagDesc map[string]string // ref -> "mediatype digest size"
+	tagFull []string          // "ref -> descriptor with annotations except the reference name"
 	exists  []bool
 	fetchOK []bool
 	byDig   []string // Resolve(digest) -> "mediatype digest size" or "notfound"/"err"
@@ -149,6 +169,18 @@ type observation struct {
 
 func plainKey(d ocispec.Descriptor) string {
 	return fmt.Sprintf("%s %s %d", d.MediaType, d.Digest, d.Size)
+}
+
+// tagKey: what Resolve(tag) must preserve: the descriptor up to the reference-name annotation.
+func tagKey(d ocispec.Descriptor) string {
+	var ks []string
+	for k, v := range d.Annotations {
+		if k != ocispec.AnnotationRefName {
+			ks = append(ks, k+"="+v)
+		}
+	}
+	sortStrings(ks)
+	return plainKey(d) + " " + fmt.Sprint(ks)
 }
 
 func observe(ctx context.Context, s interface {
@@ -166,6 +198,7 @@ func observe(ctx context.Context, s interface {
 		d, err := s.Resolve(ctx, t)
 		if err == nil {
 			o.tagDesc[t] = plainKey(d)
+			o.tagFull = append(o.tagFull, t+" -> "+tagKey(d))
 		} else {
 			o.tagDesc[t] = "error"
 		}
@@ -211,6 +244,7 @@ func assertSameObservation(a, b observation, label string) {
 	for _, t := range a.tags {
 		verifrt.Assert(a.tagDesc[t] == b.tagDesc[t], label+".tag-descriptor")
 	}
+	verifrt.Assert(strsEqual(a.tagFull, b.tagFull), label+".tag-descriptor-annotations")
 	for i := range a.exists {
 		verifrt.Assert(a.exists[i] == b.exists[i], label+".exists")
 		verifrt.Assert(a.fetchOK[i] == b.fetchOK[i], label+".fetch")
